@@ -16,6 +16,7 @@ CONSTANTS
   EmitEvery = 20
   Faults = {"cutsrc"}
   WithBind = FALSE
+  MaxNow = 0
   WithBridge = TRUE
 INVARIANTS Emit NoViolation
 CHECK_DEADLOCK FALSE
